@@ -44,6 +44,7 @@ def run(chk):
 def run_config(chk, facts, cfg):
     from .sites import run_sites
     run_sites(chk, facts, "C01-h", cfg)
+    run_sites(chk, facts, "C01-j", cfg)
     if cfg == "union":
         from .sites import run_engine_fixture
         run_engine_fixture(chk)
